@@ -15,10 +15,19 @@ def shape (j : Json) : Json :=
   let sEnds := (List.range ls.length).map (fun i => (ls.take (i+1)).sum)
   let sUnr : List (List Nat) := ((List.range ls.length).zip ls).flatMap
       (fun (r, l) => (List.range l).map (fun c => [r, c]))
+  -- the legacy `offsets` form of `from_dict`, from base 0 and from base 5: [starts, lengths] of each (L: the model's `ofOffsets`
+  -- on the offsets; S: the geometry of the lengths, whatever the base)
+  let offs (base : Int) : List Int := base :: Np.cumsumFrom base (ls.map Int.ofNat)
+  let lOff : Json := Json.arr (([0, 5] : List Int).map (fun b => match Shape.ofOffsets (offs b) with
+      | some s => toJson [s.starts, s.lengths]
+      | none => obj [("refuse", toJson true)])).toArray
+  let sOff : Json := toJson [[sStarts, ls], [sStarts, ls]]
   obj [("L", obj [("starts", toJson sh.starts), ("ends", toJson sh.ends), ("lengths", toJson sh.lengths),
+                  ("offsets_form", lOff),
                   ("size", toJson sh.size), ("n_rows", toJson sh.nRows),
                   ("unravel", Json.arr unr.toArray), ("index_array", toJson sh.indexArray)]),
        ("S", obj [("starts", toJson sStarts), ("ends", toJson sEnds), ("lengths", toJson ls),
+                  ("offsets_form", sOff),
                   ("size", toJson n), ("n_rows", toJson ls.length),
                   ("unravel", toJson sUnr), ("index_array", toJson (sUnr.map (·.headD 0)))])]
 
